@@ -143,7 +143,29 @@ def _top_level_jumps(stmts) -> bool:
 def _literal_seq(node):
     if isinstance(node, (ast.Tuple, ast.List)) and 1 <= len(node.elts) <= 24 and not any(isinstance(e, ast.Starred) for e in node.elts):
         return node
-    return None
+    return _zipped_literal(node)
+
+
+def _zipped_literal(node):
+    """`zip(<literal>, <literal>, ..)` / `enumerate(<literal>[, <int>])` over literal sequences is the literal sequence of the rows
+    (zip stops at the shortest).  The result is a one-shot iterator: a local bound to it may stand for the rows only where it
+    is read once (see _unroll_block)."""
+    if not (isinstance(node, ast.Call) and isinstance(node.func, ast.Name) and not node.keywords and node.args):
+        return None
+    if node.func.id == "zip":
+        seqs = [a if isinstance(a, (ast.Tuple, ast.List)) and not any(isinstance(e, ast.Starred) for e in a.elts) else None for a in node.args]
+        if any(q is None for q in seqs) or not 1 <= min(len(q.elts) for q in seqs) <= 24:
+            return None
+        rows = [ast.Tuple(elts=[q.elts[i] for q in seqs], ctx=ast.Load()) for i in range(min(len(q.elts) for q in seqs))]
+    elif node.func.id == "enumerate" and len(node.args) <= 2:
+        q = node.args[0]
+        start = node.args[1].value if len(node.args) == 2 and isinstance(node.args[1], ast.Constant) and type(node.args[1].value) is int else (0 if len(node.args) == 1 else None)
+        if start is None or not isinstance(q, (ast.Tuple, ast.List)) or any(isinstance(e, ast.Starred) for e in q.elts) or not 1 <= len(q.elts) <= 24:
+            return None
+        rows = [ast.Tuple(elts=[ast.Constant(value=start + i), e], ctx=ast.Load()) for i, e in enumerate(q.elts)]
+    else:
+        return None
+    return ast.fix_missing_locations(ast.copy_location(ast.Tuple(elts=rows, ctx=ast.Load()), node))
 
 
 _CONST_CTORS = {"re.compile"}
@@ -233,8 +255,9 @@ def _scan_chain(loop: ast.For, seq):
     return chain
 
 
-def _unroll_block(stmts, lits):
-    """lits: name -> literal sequence node still valid at this point"""
+def _unroll_block(stmts, lits, once=frozenset()):
+    """lits: name -> literal sequence node still valid at this point;  once: the locals read exactly once in the function (only
+    those may stand for a one-shot zip / enumerate iterator)"""
     out = []
     lits = dict(lits)
     for st in stmts:
@@ -250,7 +273,7 @@ def _unroll_block(stmts, lits):
                     if un is None:
                         un = _unroll_one(st, seq)
                     if un is not None:
-                        un = _unroll_block(un, lits)
+                        un = _unroll_block(un, lits, once)
                         for u in un:
                             ast.fix_missing_locations(u)
                         out.extend(un)
@@ -261,17 +284,18 @@ def _unroll_block(stmts, lits):
         for fld in ("body", "orelse", "finalbody"):
             b = getattr(st, fld, None)
             if isinstance(b, list) and b and isinstance(b[0], ast.stmt) and not isinstance(st, (ast.FunctionDef, ast.ClassDef, ast.AsyncFunctionDef)):
-                setattr(st, fld, _unroll_block(b, surviving))
+                setattr(st, fld, _unroll_block(b, surviving, once))
         if isinstance(st, ast.Try):
             for h in st.handlers:
-                h.body = _unroll_block(h.body, surviving)
+                h.body = _unroll_block(h.body, surviving, once)
         # update the table
         for k in list(lits):
             if k in inner_st or (set().union(*[_loaded(e) for e in lits[k].elts]) & inner_st):
                 del lits[k]
         if isinstance(st, ast.Assign) and len(st.targets) == 1 and isinstance(st.targets[0], ast.Name):
             seq = _literal_seq(st.value)
-            if seq is not None and all(_pure(e, lambdas=True) for e in seq.elts) and st.targets[0].id not in set().union(*[_loaded(e) for e in seq.elts]):
+            if seq is not None and all(_pure(e, lambdas=True) for e in seq.elts) and st.targets[0].id not in set().union(*[_loaded(e) for e in seq.elts]) \
+                    and (isinstance(st.value, (ast.Tuple, ast.List)) or st.targets[0].id in once):
                 lits[st.targets[0].id] = seq
         out.append(st)
     return out
@@ -285,7 +309,7 @@ def module_tables(mod: ast.Module) -> dict:
         for n in ast.walk(st) if not isinstance(st, (ast.FunctionDef, ast.AsyncFunctionDef, ast.ClassDef)) else []:
             if isinstance(n, ast.Name) and isinstance(n.ctx, (ast.Store, ast.Del)):
                 count[n.id] = count.get(n.id, 0) + 1
-        if isinstance(st, ast.Assign) and len(st.targets) == 1 and isinstance(st.targets[0], ast.Name):
+        if isinstance(st, ast.Assign) and len(st.targets) == 1 and isinstance(st.targets[0], ast.Name) and isinstance(st.value, (ast.Tuple, ast.List)):
             seq = _literal_seq(st.value)
             if seq is not None and all(_pure(e) for e in seq.elts):
                 cand[st.targets[0].id] = seq
@@ -315,7 +339,11 @@ def unroll_static_loops(func, tables: dict | None = None):
         own = {p.arg for p in a.posonlyargs + a.args + a.kwonlyargs} | ({a.vararg.arg} if a.vararg else set()) | ({a.kwarg.arg} if a.kwarg else set()) \
             | _stored(func.body)
         lits = {k: v for k, v in tables.items() if k not in own and not (set().union(*[_loaded(e) for e in v.elts]) & own)}
-    func.body = _unroll_block(func.body, lits)
+    reads = {}
+    for n in ast.walk(func):
+        if isinstance(n, ast.Name) and isinstance(n.ctx, ast.Load):
+            reads[n.id] = reads.get(n.id, 0) + 1
+    func.body = _unroll_block(func.body, lits, frozenset(k for k, c in reads.items() if c == 1))
     return func
 
 
@@ -816,8 +844,28 @@ class _ConstGetattr(ast.NodeTransformer):
         return n
 
 
+class _ConstSetattr(ast.NodeTransformer):
+    """the statement `setattr(x, "name", v)` (literal identifier) is the assignment `x.name = v`"""
+
+    def visit_Expr(self, st):
+        n = st.value
+        if isinstance(n, ast.Call) and isinstance(n.func, ast.Name) and n.func.id == "setattr" and len(n.args) == 3 and not n.keywords \
+                and isinstance(n.args[1], ast.Constant) and isinstance(n.args[1].value, str) and n.args[1].value.isidentifier() \
+                and not any(isinstance(a, ast.Starred) for a in n.args):
+            new = ast.Assign(targets=[ast.Attribute(value=n.args[0], attr=n.args[1].value, ctx=ast.Store())], value=n.args[2])
+            return ast.copy_location(new, st)
+        return st
+
+    visit_FunctionDef = visit_AsyncFunctionDef = visit_ClassDef = visit_Lambda = lambda self, n: n
+
+
 def const_getattr(node):
-    return ast.fix_missing_locations(_ConstGetattr().visit(node))
+    """getattr / setattr with a literal attribute name are the attribute read / the attribute assignment"""
+    node = _ConstGetattr().visit(node)
+    if isinstance(node, (ast.FunctionDef, ast.AsyncFunctionDef)):
+        tr = _ConstSetattr()
+        node.body = [tr.visit(st) for st in node.body]
+    return ast.fix_missing_locations(node)
 
 
 # ----------------------------------------------------------------------------------------------------- closure dispatch
